@@ -166,11 +166,10 @@ class Scenario(sc.SockWorld):
                 # connection accepted, but the k-th write on it fails (fault armed at open time)
                 acts.append(("accept_failing", 0))
         live = self.net.live()
-        if live and self.p.get("stall"):
-            if live[-1].paused:
-                acts.append(("resume",))
-            elif self.nstall < 1:
-                acts.append(("stall",))
+        if live and self.p.get("stall") and not live[-1].paused and self.nstall < 1:
+            acts.append(("stall",))
+        if self.p.get("stall") and self.net.stalled():
+            acts.append(("resume",))
         if live and self.nfault < self.max_fault:
             if live[-1].fail_after is None:
                 for k in self.p.get("fail_chunks", (0, 1, 2)):
@@ -213,7 +212,7 @@ class Scenario(sc.SockWorld):
             self.nstall += 1
             self.net.live()[-1].pause()
         elif op == "resume":
-            self.net.live()[-1].resume()
+            self.net.stalled()[-1].resume()
         elif op == "accept_failing":
             self.nfault += 1
 
